@@ -140,7 +140,7 @@ class ProgGen:
     # -- statements
     def stmt(self):
         r = self.r
-        c = r.randrange(16)
+        c = r.randrange(18)
         L = self.lines
         if c == 0:
             v = self.fresh('v')
@@ -290,6 +290,25 @@ class ProgGen:
             L.append(f'{v} = {base}_{n - 1} - {base}_{n - 2} + {self.int_expr(1)} + {base}_{r.randrange(n)} - {base}_{r.randrange(n)}')
             self.locals[v] = 'int'
             self.features.add('extended_arg')
+        elif c == 16:
+            # annotations are evaluated (not stored as text) unless the code itself asks otherwise
+            f = self.fresh('fa')
+            p = self.fresh('p_')
+            L.append(f'def {f}({p}: int, q_: "str" = "x") -> int:')
+            L.append(f'    return {p} + {self.int_expr(1, (p,))}')
+            v = self.fresh('v')
+            L.append(f"{v} = int({f}.__annotations__['{p}'] is int) + len({f}.__annotations__['return'].__name__) + {f}({self.int_atom()})")
+            self.locals[v] = 'int'
+            self.locals[f] = 'fun1'
+            self.features.add('annotations')
+        elif c == 17:
+            v = self.fresh('va')
+            L.append(f'{v}: int = {self.int_expr(1)}')
+            w = self.fresh('v')
+            L.append(f"{w} = {v} + int(__annotations__['{v}'] is int)")
+            self.locals[v] = 'int'
+            self.locals[w] = 'int'
+            self.features.add('annotations')
         else:
             v = self.fresh('s')
             L.append(f'{v} = {self.str_expr()} + {repr("_")} + {self.str_expr()}')
